@@ -21,7 +21,7 @@ from concurrent.futures import ThreadPoolExecutor
 
 HERE = os.path.dirname(os.path.abspath(__file__))
 sys.path.insert(0, HERE)
-from mutants import MUTANTS  # noqa: E402
+from mutants import MUTANTS, REFACTORINGS  # noqa: E402
 
 BASELINE = json.load(open("/root/.vp/BASELINE.json"))["stable_pass"]
 
@@ -55,13 +55,14 @@ def tests_pass(d: str) -> tuple[bool, str]:
 
 
 def run_one(name: str, props=None, tests=True) -> dict:
-    mut = next(m for m in MUTANTS if m["name"] == name)
+    mut = next(m for m in MUTANTS + REFACTORINGS if m["name"] == name)
+    mut.setdefault("breaks", [])
     d = make_copy(mut)
     try:
         res = {"mutant": name, "breaks": mut["breaks"], "tests": None, "detected": {}, "silent_ok": {}}
         if tests:
             res["tests"] = tests_pass(d)
-        for pid in (props or mut["breaks"] + mut.get("also", [])):
+        for pid in (props or mut["breaks"] + mut.get("also", []) + mut.get("silent", [])):
             r = subprocess.run(["/venv/bin/python", os.path.join(HERE, "check.py"), pid, "--tier", "quick"],
                                env=dict(os.environ, VERIF_REPO=d, VERIF_NO_EVIDENCE="1"), capture_output=True, text=True,
                                cwd=os.path.dirname(HERE))
@@ -88,6 +89,14 @@ def main():
     if a.cmd == "run":
         print(json.dumps(run_one(a.name, a.props.split(",") if a.props else None, not a.no_tests), indent=1))
         return
+    if a.cmd == "silent":
+        bad = 0
+        for m in REFACTORINGS:
+            res = run_one(m["name"], None, not a.no_tests)
+            noisy = {p: v for p, v in res["detected"].items() if v[0] != 0}
+            bad += bool(noisy)
+            print(("FALSE-ALARM " if noisy else "silent ") + m["name"], "tests:", res["tests"], {p: v[0] for p, v in res["detected"].items()}, noisy or "", flush=True)
+        sys.exit(1 if bad else 0)
     if a.cmd == "all":
         names = [m["name"] for m in MUTANTS]
         allres = []
